@@ -441,13 +441,29 @@ def _short(sc):
 # ----------------------------------------------------------------------------------------------------------------
 def far_from_origin(sc):
     """largest distance (in cell widths) between the origin of the un-normalised coordinates and the far end of the
-    caching area; the float monitors name their signature after it"""
-    rho = 0.0
+    caching area, or the number of cells per axis if that is larger; the float monitors report it"""
+    return max(_regime(sc)[1:])
+
+
+FAR = {1: 1e4, 2: 300.0, 3: 100.0}        # cell widths from the origin beyond which digits are visibly lost (per dimension)
+FINE = {1: 1e4, 2: 200.0, 3: 50.0}        # cells per axis
+
+
+def _regime(sc):
+    off = ncell = 0.0
     for d in range(sc['dim']):
         lo, hi, r = sc['area'][2 * d], sc['area'][2 * d + 1], sc['res'][d]
-        ncell = max(int((hi - lo) / r), 1)
-        rho = max(rho, max(abs(lo), abs(hi)) / ((hi - lo) / ncell), float(ncell))
-    return rho
+        n = max(int((hi - lo) / r), 1)
+        off = max(off, max(abs(lo), abs(hi)) / ((hi - lo) / n))
+        ncell = max(ncell, float(n))
+    name = 'far-from-origin' if off > FAR[sc['dim']] else ('fine-grid' if ncell > FINE[sc['dim']] else 'regular')
+    return name, off, ncell
+
+
+def value_sig(sc, generic):
+    """signature of a value error: named after the float regime when the scenario is in one, else the generic clause"""
+    reg = _regime(sc)[0]
+    return generic if reg == 'regular' else 'precision-loss-' + reg
 
 
 def fail_sig(sc, what):
@@ -538,9 +554,7 @@ def s_values(ctx, sc, c, n_extra, rng):
         else:
             lim, what = bound + floor, 'error-exceeds-h2-bound'
         if not err <= lim:
-            rho = far_from_origin(sc)
-            if rho > 2000:
-                what = 'precision-loss-far-from-origin'
+            what = value_sig(sc, what)
             ctx.fail(fail_sig(sc, what),
                      '%s point %r: |cached - f| = %.3e > %.3e (H^2 max|f"| = %.3e, float floor %.1e); area %r resolution %r'
                      % (kind, p, err, lim, bound if kind != 'node' else 0.0, floor, sc['area'], sc['res']),
@@ -726,8 +740,7 @@ def _single_point_oracle(ctx, sc, c, fn, p):
     err = abs(v - fn(*p))
     lim = floor + (0.0 if fn.multilinear() else bound)
     if not err <= lim:
-        what = 'precision-loss-far-from-origin' if rho > 2000 else \
-            ('multilinear-not-reproduced' if fn.multilinear() else 'error-exceeds-h2-bound')
+        what = value_sig(sc, 'multilinear-not-reproduced' if fn.multilinear() else 'error-exceeds-h2-bound')
         ctx.fail(fail_sig(sc, what),
                  'point %r: |cached - f| = %.3e > %.3e (H^2 max|f"| = %.3e, float floor %.1e); area %r resolution %r '
                  '(up to %.3g cells from the origin)' % (p, err, lim, bound, floor, sc['area'], sc['res'], rho),
